@@ -205,6 +205,92 @@ func (w *World) execCreateBinding(stepIdx int, st *Step) {
 		}
 		check("removed:"+pathClass(l.path), editPath(req, l.path, nil, true), l.path[0] == "suffixData")
 	}
+	// type-changing modifications: the same characters as another JSON type or structure (a number as a string, a
+	// list as one joined string, a container as its printed form) - single-field modifications an implementation that
+	// flattens values (cache keys, string concatenation) would confuse with the original
+	var nodes []leaf
+	nodes = append(nodes, leaves...)
+	nodes = append(nodes, members...)
+	for _, l := range nodes {
+		old := getPath(req, l.path)
+		for vi, alt := range retyped(old) {
+			n++
+			if st.Index > 0 && st.Index != n {
+				continue
+			}
+			if ref.Equal(alt, old) {
+				continue
+			}
+			check(fmt.Sprintf("retyped%d:%s", vi, pathClass(l.path)), editPath(req, l.path, alt, false), l.path[0] == "suffixData")
+		}
+	}
+}
+
+// retyped returns values that print like v but have another JSON type or structure.
+func retyped(v any) []any {
+	var out []any
+	switch x := v.(type) {
+	case json.Number:
+		out = append(out, string(x))
+	case string:
+		if _, err := strconv.ParseFloat(x, 64); err == nil && x != "" {
+			out = append(out, json.Number(x))
+		}
+		out = append(out, []any{x})
+		if strings.Contains(x, " ") {
+			parts := strings.Split(x, " ")
+			l := make([]any, len(parts))
+			for i, p := range parts {
+				l[i] = p
+			}
+			out = append(out, l)
+		}
+	case bool:
+		out = append(out, fmt.Sprint(x))
+	case nil:
+		out = append(out, "<nil>", "null")
+	case []any:
+		var strs []string
+		all := true
+		for _, e := range x {
+			s, ok := e.(string)
+			if !ok {
+				all = false
+				break
+			}
+			strs = append(strs, s)
+		}
+		if all && len(strs) > 1 {
+			out = append(out, []any{strings.Join(strs, " ")}, strings.Join(strs, " "))
+		}
+		out = append(out, fmt.Sprint(goValue(x)), string(ref.JCS(x)))
+	case map[string]any:
+		out = append(out, fmt.Sprint(goValue(x)), string(ref.JCS(x)))
+	}
+	return out
+}
+
+// goValue converts a generic JSON value into what encoding/json decodes into interface{} (float64 numbers), so that
+// fmt.Sprint renders it the way the library would see it.
+func goValue(v any) any {
+	switch x := v.(type) {
+	case json.Number:
+		f, _ := x.Float64()
+		return f
+	case []any:
+		out := make([]interface{}, len(x))
+		for i, e := range x {
+			out[i] = goValue(e)
+		}
+		return out
+	case map[string]any:
+		out := make(map[string]interface{}, len(x))
+		for k, e := range x {
+			out[k] = goValue(e)
+		}
+		return out
+	}
+	return v
 }
 
 // pathClass abstracts a path (indices and ids dropped) so that witnesses are stable.
